@@ -346,6 +346,12 @@ def family(fam, tier):
                     + [[8.0 - 8.0 * i / k, 4000.0] for i in range(k)] + [[0.0, 4000.0 - 4000.0 * i / k] for i in range(k)])
             yield "Polygon", [ring]
             yield "MultiPolygon", [[ring], [[[9.0, 0.0], [10.0, 0.0], [10.0, 125.0]]]]
+        # outlines with a zero-width 'whisker' (out to a tip and back along the same path) that carries the extreme time or
+        # frequency: the bounds are those of the coordinates, whisker included
+        for tip in ([3.0, 1000.0], [1.0, 2500.0], [-0.0, 500.0]):
+            wring = [[0.5, 0.0], [2.0, 0.0], [2.0, 1000.0], tip, [2.0, 1000.0], [0.5, 1000.0]]
+            yield "Polygon", [wring]
+            yield "MultiPolygon", [[wring], [[[5.0, 0.0], [6.0, 0.0], [6.0, 125.0]]]]
         T, Fq = lattice("quick")
         for t0, t1, f0, f1 in rects(T, Fq):
             c = rect_corners(t0, t1, f0, f1)
@@ -357,9 +363,12 @@ def family(fam, tier):
 
 
 def self_crossing(gtype, coords):
-    """True for the 'bow tie' rings of the odd family (4 vertices, the two diagonals used as edges)."""
+    """True for the 'bow tie' rings of the odd family (4 vertices, the two diagonals used as edges) and for rings that revisit a
+    vertex (whiskers): centroid / point-on-surface are shapely's business there."""
     rings = coords if gtype == "Polygon" else [r for poly in coords for r in poly] if gtype == "MultiPolygon" else []
     for r in rings:
+        if len({tuple(p) for p in r}) < len(r):
+            return True
         if len(r) == 4 and r[0][0] == r[3][0] and r[1][0] == r[2][0] and r[0][1] == r[2][1] and r[1][1] == r[3][1] \
                 and r[0][0] != r[1][0] and r[0][1] != r[1][1]:
             return True
